@@ -4,7 +4,9 @@ from props.l1props import *
 
 def run(tier, seed, replay=None):
     ck, _ = run_prop("C03", tier, seed, replay, 500, 6000,
+                     fixed=lambda r: [x for x in l1.soak_scenarios(r) if x[0] == "datapath-down-and-up"] + l1.pool_scenarios(r),
+                     fixed_mon=l1.mon_rejected_writes_nothing,
                      rule="random histories over 2 associations x up to 4 sessions (setup, establishment incl. without association, the "
                           "modification kinds of tools/l1.py, deletion, unknown-SEID requests, heartbeat, report response, release, teardown, restart), "
-                          "sequence numbers incl. 0 / 2^24-1, CP SEIDs incl. 0 / 2^64-1; distinct = distinct event byte sequences")
+                          "sequence numbers incl. 0 / 2^24-1, CP SEIDs incl. 0 / 2^64-1; distinct = distinct event byte sequences; plus fixed scenarios (the BESS daemon away and back with a rejected association in between, a deletion the datapath refuses): rejected requests are rejected and write nothing")
     return ck if isinstance(ck, int) else ck.finish()
